@@ -133,7 +133,7 @@ Qed.
 (* the builders named in the property exist, convert, and pass the column on (or report a constant) *)
 Definition named : list string :=
   ["nesting.py"; "nesting.ts"; "nesting.rs"; "magic.py"; "magic.ts"; "magic.rs"; "srp.py"; "srp.ts"; "srp.rs";
-   "unwrap"; "clone"; "blocking"; "dry"; "dry.constant.py"; "dry.constant.ts"; "print.py"; "print.ts"; "stateless"].
+   "unwrap"; "clone"; "blocking"; "dry"; "dry.constant.py"; "dry.constant.ts"; "print.py"; "print.ts"; "stateless"; "cqs.py"; "cqs.ts"].
 Lemma named_builders :
   forallb (fun b => match builder b with Some (le, ce) => conv_ok le && col_plain ce | None => false end) named = true.
 Proof. vm_compute. reflexivity. Qed.
@@ -241,11 +241,11 @@ Proof.
   - unfold node_col. now destruct (use_node q (k_builder c)).
 Qed.
 
-(* builders no flag refers to (nesting in Python and Rust, magic numbers, SRP in every language - TypeScript since 147bf8d -, blocking-async,
+(* builders no flag refers to (nesting and CQS in Python, nesting in Rust, magic numbers, SRP in every language - TypeScript since 147bf8d -, blocking-async,
    Python print, stateless-class, file-placement with column 0): the property holds for the FAITHFUL model, whatever the
    quirk vector, for every well-formed construct whose builder reports the node column or the constant 0 *)
 Definition flag_free (b : string) : bool :=
-  negb (String.eqb b "unwrap" || String.eqb b "clone" || String.eqb b "nesting.ts" || String.eqb b "print.ts" || String.eqb b "file-header.atemporal").
+  negb (String.eqb b "unwrap" || String.eqb b "clone" || String.eqb b "nesting.ts" || String.eqb b "cqs.ts" || String.eqb b "print.ts" || String.eqb b "file-header.atemporal").
 Theorem model_flag_free_exact q f c :
   flag_free (k_builder c) = true -> wf_construct f c = true -> const_col_fits f c = true ->
   loc_ok f c (model_line q c) (model_col q f c) = true.
@@ -253,7 +253,7 @@ Proof.
   intros Hf Hwf Hfit.
   assert (U : use_node q (k_builder c) = false).
   { unfold flag_free in Hf. apply Bool.negb_true_iff in Hf. unfold use_node.
-    destruct (String.eqb (k_builder c) "unwrap"), (String.eqb (k_builder c) "clone"), (String.eqb (k_builder c) "nesting.ts"), (String.eqb (k_builder c) "print.ts"),
+    destruct (String.eqb (k_builder c) "unwrap"), (String.eqb (k_builder c) "clone"), (String.eqb (k_builder c) "nesting.ts"), (String.eqb (k_builder c) "cqs.ts"), (String.eqb (k_builder c) "print.ts"),
              (String.eqb (k_builder c) "file-header.atemporal"); cbn in Hf; try discriminate; reflexivity. }
   apply model_from_header; [unfold node_row; now rewrite U|unfold node_col; now rewrite U|exact Hwf|intros _; exact Hfit].
 Qed.
